@@ -384,7 +384,9 @@ unsafe impl Format for WTF8 {
             let Some(codept) = futf::classify(buf, i) else {
                 return false;
             };
-            if !wtf8_meaningful(codept.meaning) {
+            // A continuation byte here makes `classify` describe the sequence
+            // before `i`: the code point has to start at `i`.
+            if codept.rewind != 0 || !wtf8_meaningful(codept.meaning) {
                 return false;
             }
             i += codept.bytes.len();
